@@ -481,6 +481,235 @@ def history_brief(ctor, ops):
     return steps
 
 
+# ---------- in-place edits of a frame that has already been used ----------
+import copy
+
+
+def sig_bits(s):
+    return set(layouts.positions(s["le"], s["start"], s["size"]))
+
+
+def leaf_ranges(rng, p):
+    plo, phi = raw_range(p["size"], p["signed"])
+    rs = []
+    for _ in range(rng.randrange(1, 4)):
+        lo = rng.randrange(plo, phi + 1)
+        rs.append((lo, min(phi, lo + rng.choice([0, 0, 1, 2, 5]))))
+    return rs
+
+
+def desc_valid(desc):
+    """the edited description still lies in the property's envelope"""
+    sigs = desc["sigs"]
+    if desc["complex"]:
+        return any(s["role"] == "mux" or (s["parent"] is not None and s["ranges"]) for s in sigs)
+    # simple: signals that can be present together do not share bits
+    for a in range(len(sigs)):
+        for b in range(a + 1, len(sigs)):
+            s, u = sigs[a], sigs[b]
+            together = s["role"] != "leaf" or u["role"] != "leaf" or s["token"] == u["token"]
+            if together and sig_bits(s) & sig_bits(u):
+                return False
+    return True
+
+
+def propose_edit(rng, desc):
+    """one in-place edit of the multiplexing structure: returns (new description, action for the live frame) or None"""
+    d2 = copy.deepcopy(desc)
+    sigs = d2["sigs"]
+    by_i = {s["i"]: s for s in sigs}
+    root = next(s for s in sigs if s["role"] == "root")
+    muxes = [s for s in sigs if s["role"] in ("root", "mux")]
+    leaves = [s for s in sigs if s["role"] == "leaf"]
+    statics = [s for s in sigs if s["role"] == "static"]
+    nbits = 8 * d2["size"]
+    newi = max(s["i"] for s in sigs) + 1
+    ext = d2["complex"]
+    rlo, rhi = raw_range(root["size"], root["signed"])
+    kind = rng.choice(["rebind", "rebind", "reparent", "add-leaf", "add-leaf", "add-static", "remove", "rename", "to-static", "to-leaf", "mux-ranges"])
+
+    def new_field(avoid, width):
+        for _ in range(40):
+            le = rng.random() < 0.5
+            start = rng.randrange(0, nbits - width + 1)
+            if not (set(layouts.positions(le, start, width)) & avoid):
+                return le, start
+        return None
+
+    fixed_bits = set()
+    for s in sigs:
+        if s["role"] != "leaf":
+            fixed_bits |= sig_bits(s)
+    if kind == "rebind" and leaves:
+        s = rng.choice(leaves)
+        if ext and s["ranges"]:
+            s["ranges"] = leaf_ranges(rng, by_i[s["parent"]])
+            s["token"] = s["ranges"][0][0]
+        else:
+            s["token"] = s["single"] = rng.randrange(rlo, rhi + 1)
+        act = dict(kind=kind, i=s["i"], ranges=s["ranges"], token=s["token"], bare=rng.random() < 0.5)
+    elif kind == "reparent" and ext and [s for s in leaves if s["ranges"]] and len(muxes) >= 2:
+        s = rng.choice([s for s in leaves if s["ranges"]])
+        pnew = rng.choice([m for m in muxes if m["i"] != s["parent"]])
+        s["parent"] = pnew["i"]
+        s["ranges"] = leaf_ranges(rng, pnew)
+        s["token"] = s["ranges"][0][0]
+        act = dict(kind=kind, i=s["i"], parent=pnew["i"], ranges=s["ranges"], token=s["token"])
+    elif kind == "add-leaf":
+        pm = rng.choice(muxes) if ext else root
+        w = max(1, min(rng.choice([1, 2, 4, 8]), nbits))
+        f = new_field(fixed_bits, w)
+        if f is None:
+            return None
+        rs = leaf_ranges(rng, pm) if ext else []
+        if not ext and leaves and rng.random() < 0.7:
+            tok = rng.choice(leaves)["token"]             # joins a group that exists (and was decoded before)
+        elif ext and rng.random() < 0.6 and [l for l in leaves if l["parent"] == pm["i"] and l["ranges"]]:
+            rs = list(rng.choice([l for l in leaves if l["parent"] == pm["i"] and l["ranges"]])["ranges"])
+            tok = rs[0][0]
+        else:
+            tok = rs[0][0] if ext else rng.randrange(rlo, rhi + 1)
+        s = dict(i=newi, role="leaf", le=f[0], start=f[1], size=w, signed=rng.random() < 0.3, token=tok, parent=pm["i"],
+                 ranges=rs, single=None if rs else tok)
+        sigs.insert(rng.randrange(len(sigs) + 1) if False else len(sigs), s)
+        act = dict(kind=kind, sig=s)
+    elif kind == "add-static":
+        allbits = set()
+        for s in sigs:
+            allbits |= sig_bits(s)
+        w = max(1, min(rng.choice([1, 2, 4, 8]), nbits))
+        f = new_field(allbits, w)
+        if f is None:
+            return None
+        s = dict(i=newi, role="static", le=f[0], start=f[1], size=w, signed=rng.random() < 0.3, token=None, parent=None, ranges=[], single=None)
+        sigs.append(s)
+        act = dict(kind=kind, sig=s)
+    elif kind == "remove" and (leaves or statics):
+        s = rng.choice(leaves + statics)
+        sigs.remove(s)
+        act = dict(kind=kind, i=s["i"])
+    elif kind == "rename" and (leaves or statics):
+        s = rng.choice(leaves + statics)
+        act = dict(kind=kind, i=s["i"], new=newi)
+        s["i"] = newi
+    elif kind == "to-static" and leaves:
+        s = rng.choice(leaves)
+        act = dict(kind=kind, i=s["i"])
+        s.update(role="static", token=None, parent=None, ranges=[], single=None)
+    elif kind == "to-leaf" and statics:
+        s = rng.choice(statics)
+        pm = rng.choice(muxes) if ext else root
+        rs = leaf_ranges(rng, pm) if ext else []
+        tok = rs[0][0] if ext else rng.randrange(rlo, rhi + 1)
+        s.update(role="leaf", token=tok, parent=pm["i"], ranges=rs, single=None if rs else tok)
+        act = dict(kind=kind, i=s["i"], parent=pm["i"], ranges=rs, token=tok)
+    elif kind == "mux-ranges" and ext and [m for m in sigs if m["role"] == "mux"]:
+        m = rng.choice([m for m in sigs if m["role"] == "mux"])
+        rs = []
+        for lo, hi in m["ranges"]:                         # a subset of what it accepted: siblings stay disjoint
+            if hi > lo and rng.random() < 0.7:
+                lo2 = rng.randrange(lo, hi + 1)
+                rs.append((lo2, rng.randrange(lo2, hi + 1)))
+            else:
+                rs.append((lo, hi))
+        if len(rs) > 1 and rng.random() < 0.4:
+            rs.pop(rng.randrange(len(rs)))
+        if rs == m["ranges"]:
+            return None
+        m["ranges"] = rs
+        m["token"] = rs[0][0]
+        act = dict(kind=kind, i=m["i"], ranges=rs, token=m["token"])
+    else:
+        return None
+    if not desc_valid(d2):
+        return None
+    return d2, act
+
+
+def apply_live(C, fr, act):
+    """the edit through the public API on the live Frame/Signal objects"""
+    k = act["kind"]
+    if k in ("add-leaf", "add-static"):
+        s = act["sig"]
+        o = C.Signal(nm(s["i"]), start_bit=s["start"], size=s["size"], is_little_endian=s["le"], is_signed=s["signed"], multiplex=s["token"])
+        if s["role"] == "leaf" and s["ranges"]:
+            o.muxer_for_signal = nm(s["parent"])
+            for lo, hi in s["ranges"]:
+                o.mux_val_grp.append([lo, hi])
+        elif s["role"] == "leaf" and fr.is_complex_multiplexed:
+            o.muxer_for_signal = nm(s["parent"])
+        fr.add_signal(o)
+        return
+    o = fr.signal_by_name(nm(act["i"]))
+    if k == "remove":
+        fr.signals.remove(o)
+    elif k == "rename":
+        o.name = nm(act["new"])
+    elif k == "to-static":
+        o.muxer_for_signal = None
+        o.mux_val_grp[:] = []
+        o.multiplex = o.multiplex_setter(None)
+    elif k in ("rebind", "reparent", "to-leaf"):
+        if act.get("parent") is not None and (act["ranges"] or fr.is_complex_multiplexed):
+            o.muxer_for_signal = nm(act["parent"])
+        if act["ranges"] or o.mux_val_grp:
+            o.mux_val_grp[:] = [[lo, hi] for lo, hi in act["ranges"]]
+        if act.get("bare"):
+            o.multiplex_setter(act["token"])
+        else:
+            o.multiplex = o.multiplex_setter(act["token"])
+    elif k == "mux-ranges":
+        o.mux_val_grp[:] = [[lo, hi] for lo, hi in act["ranges"]]
+        o.multiplex_setter(act["token"])
+        o.is_multiplexer = True                            # as formats/dbc.py does for m<k>M
+        o.multiplex = "Multiplexor"
+
+
+def act_brief(act):
+    a = dict(act)
+    if "sig" in a:
+        s = a.pop("sig")
+        a.update(name=nm(s["i"]), role=s["role"], le=s["le"], start=s["start"], size=s["size"], multiplex=s["token"],
+                 parent=nm(s["parent"]) if s["parent"] is not None else None, ranges=s["ranges"])
+    if "i" in a:
+        a["signal"] = nm(a.pop("i"))
+    if a.get("parent") is not None and not isinstance(a["parent"], str):
+        a["parent"] = nm(a["parent"])
+    if "new" in a:
+        a["new"] = nm(a["new"])
+    return a
+
+
+def frame_payloads(rng, desc, cap):
+    """payloads that reach every group: every selector value of a simple frame; every range boundary of an extended one"""
+    b = {s["i"]: s for s in desc["sigs"]}
+    out = []
+    if not desc["complex"]:
+        root = next(s for s in desc["sigs"] if s["role"] == "root")
+        lo, hi = raw_range(root["size"], root["signed"])
+        for sv in range(lo, hi + 1):
+            buf = bytearray(rng.randrange(256) for _ in range(desc["size"]))
+            write_raw(buf, root["le"], root["start"], root["size"], sv)
+            out.append(bytes(buf))
+    else:
+        for s in desc["sigs"]:
+            if s["parent"] is None:
+                continue
+            p = b[s["parent"]]
+            plo, phi = raw_range(p["size"], p["signed"])
+            pts = set()
+            for lo, hi in (s["ranges"] or [(s["single"], s["single"])]):
+                pts |= {lo - 1, lo, hi, hi + 1}
+            for v in sorted(pts):
+                if plo <= v <= phi:
+                    out.append(chain_payload(rng, desc, p, v))
+        for _ in range(3):
+            out.append(bytes(rng.randrange(256) for _ in range(desc["size"])))
+    if len(out) > cap:
+        out = rng.sample(out, cap)
+    return out
+
+
 # ---------- running the implementation ----------
 def impl_decode(C, fr, payload):
     try:
@@ -512,7 +741,10 @@ def run(chk):
                 "role histories: on a simply multiplexed frame every signal's role is assigned 1..3 times on the live objects (constructor argument, "
                 "s.multiplex_setter(x), s.multiplex = s.multiplex_setter(x), frame.multiplex_signals()) among None / N / 'Multiplexor'; decode for every "
                 "selector value and the encode round trip are judged for the FINAL roles and compared with a freshly built frame.  "
-                "non-trivial = a selector value no group uses, or >= 2 groups, or a nested multiplexer, or a role history; distinct by (frame, payload/data)")
+                "edit-after-use: a simple or extended frame (API-built or loaded from DBC) is decoded/encoded for every group, then edited in place "
+                "1..3 times (re-bind, re-parent, add bound/static signal, remove, rename, bound<->static, narrow a nested multiplexer's ranges) and "
+                "used again with the same and new payloads, judged for the edited definition and against a frame built from scratch.  "
+                "non-trivial = a selector value no group uses, or >= 2 groups, or a nested multiplexer, or a role history, or a use after an edit; distinct by (frame, payload/data)")
     ok = chk.build_and_audit()
     tr_ok = ok and core.translator_tie(chk, ['gen/Tie_mux.v'], ['gen/Gen_mux.v'])
     cm = core.import_impl()
@@ -713,6 +945,77 @@ def run(chk):
         fr, stored_str = run_history(C, desc, ctor, ops)
         chk.count("history (tie only, multiplex_signals anywhere)")
         add(307, history_case(desc, ctor, ops), [[0]] if stored_str else history_out(fr), dict(history=history_brief(ctor, ops)), "history-free")
+
+    # ================= in-place edits of a frame that was already used =================
+    # one Frame object: decode (and encode) everything, edit the multiplexing structure through the API, use it again.
+    # Property: what the frame answers depends on its definition NOW - judged by the oracle on the edited description and
+    # compared with a frame built from scratch with that definition.
+    nedit = 160 if not thorough else 2500
+    for n_ in range(nedit):
+        ext = n_ % 5 != 0
+        desc = gen_ext(rng, dbc_single=True) if ext else gen_simple(rng)
+        if ext and not desc["complex"]:
+            ext = False
+        how = "api"
+        fr = None
+        if ext and rng.random() < 0.5:
+            try:
+                fr = canmatrix.formats.loads_flat(dbc_text(desc), "dbc").frames[0]
+                how = "dbc"
+            except Exception:
+                fr = None
+        if fr is None:
+            fr = build_api(C, desc, dbc_style=True if ext else rng.random() < 0.5)
+        chk.count("edit-after-use: %s frames (%s)" % ("extended" if ext else "simple", how))
+        cap = 24 if not thorough else 40
+        seen = frame_payloads(rng, desc, cap)
+        for pay in seen:                                   # first use: every group is decoded once
+            check_decode(desc, fr, pay, "before-edit", True, kp="edit-")
+        if not ext:
+            check_encode(desc, fr, kp="edit-", label="edit-after-use (before)")
+        edits = []
+        for _round in range(rng.choice([1, 2, 3])):
+            for _ in range(rng.choice([1, 1, 2])):
+                pe = None
+                for _try in range(8):
+                    pe = propose_edit(rng, desc)
+                    if pe is not None:
+                        break
+                if pe is None:
+                    continue
+                desc, act = pe
+                apply_live(C, fr, act)
+                edits.append(act_brief(act))
+                chk.count("edit-after-use: edit %s" % act["kind"])
+            if not edits:
+                break
+            extra = dict(first_built=how, edits_after_first_use=list(edits))
+            fresh = build_api(C, desc, dbc_style=True if ext else False)
+            if ext:
+                live_roles = [r[:5] + r[5:] for r in roles_of(fr)]
+                same_roles = live_roles == roles_of(fresh)
+            else:
+                same_roles = [(s.name, bool(s.is_multiplexer), s.mux_val) for s in fr.signals] == \
+                             [(s.name, bool(s.is_multiplexer), s.mux_val) for s in fresh.signals]
+            if not same_roles:
+                chk.violation("edit-roles", "after in-place edits the signals do not carry the roles of a frame built directly with the edited definition",
+                              dict(frame=desc_brief(desc), **extra), roles_of(fresh), roles_of(fr))
+            again = seen + frame_payloads(rng, desc, cap // 2)
+            for pay in again:
+                chk.count("edit-after-use: payload decoded after an edit")
+                check_decode(desc, fr, pay, "edited", True, kp="edit-", extra=extra)
+                ref, _ = impl_decode(C, fresh, pay)
+                now, _ = impl_decode(C, fr, pay)
+                if ref != now:
+                    chk.violation("edit-vs-fresh-decode", "a frame edited in place after it had been used decodes differently from a frame built "
+                                  "from scratch with the same definition", dict(frame=desc_brief(desc), payload=pay.hex(), **extra), ref, now)
+            if not ext:
+                for data, out in check_encode(desc, fr, kp="edit-", extra=extra, label="edit-after-use"):
+                    ref, _ = impl_encode(C, fresh, data)
+                    if ref != out:
+                        chk.violation("edit-vs-fresh-encode", "a frame edited in place after it had been used encodes differently from a frame built "
+                                      "from scratch with the same definition", dict(frame=desc_brief(desc), data=data, **extra), ref, out)
+            seen = again[-cap:]
 
     # ================= extended multiplexing =================
     next_ = 300 if not thorough else 5000
